@@ -95,6 +95,10 @@ inline Args parse_args( int argc, char** argv )
     return a;
 }
 
+// optional Fixture::header_extra(): extra `key=value` words for the case header (configuration the Lean model needs)
+template <class F> auto header_extra_of( F const& f, int ) -> decltype( f.header_extra()) { return f.header_extra(); }
+template <class F> std::string header_extra_of( F const&, long ) { return std::string(); }
+
 template <class Fixture>
 struct Runner {
     Args args;
@@ -114,6 +118,7 @@ struct Runner {
         head << "CASE " << id << ' ' << ( args.opt.count( "spec" ) ? args.opt.at( "spec" ) : fx.spec()) << '\n';
         head << "# family=" << Fixture::family() << " variant=" << c.variant << " seed=" << c.seed << " index=" << c.index
              << " mode=" << modename << " threads=" << n;
+        { std::string hx = header_extra_of( fx, 0 ); if ( !hx.empty()) head << ' ' << hx; }
         for ( int t = 0; t < n; ++t )
             for ( Op const& op : prog[t] ) {
                 head << "\nP " << t << ' ' << op.name;
